@@ -11,6 +11,7 @@ import (
 	"fmt"
 	"go/ast"
 	"go/parser"
+	"go/printer"
 	"go/token"
 	"os"
 	"path/filepath"
@@ -583,6 +584,20 @@ func registered(pk *pkgInfo) []int64 {
 	return out
 }
 
+// printed top-level statements of a function body (whitespace-normalised): the T2 "structure" facts
+func stmtTexts(fd *ast.FuncDecl) []string {
+	out := []string{}
+	if fd == nil || fd.Body == nil {
+		return out
+	}
+	for _, st := range fd.Body.List {
+		var b bytes.Buffer
+		printer.Fprint(&b, fset, st)
+		out = append(out, strings.Join(strings.Fields(b.String()), " "))
+	}
+	return out
+}
+
 func q(xs []string) string {
 	o := []string{}
 	for _, x := range xs {
@@ -692,6 +707,10 @@ func main() {
 		rs = append(rs, strconv.FormatInt(v, 10))
 	}
 	fmt.Fprintf(&w, "def registeredVersions : List Nat := [%s]\n", strings.Join(rs, ", "))
+	// structure facts: the statement lists of the tiny constructors around the request-id generator
+	for _, fn := range []string{"GetRequestIDGen", "NewRequest", "MustNewRequest", "NewResponse", "MustNewResponse", "NewPush", "MustNewPush"} {
+		fmt.Fprintf(&w, "def stmts_%s : List String := %s\n", fn, q(stmtTexts(findFunc(pkgs["protocol"], "", fn))))
+	}
 	fmt.Fprintln(&w, "end OAP.Gen")
 	out := filepath.Join(outDir, "Facts.lean")
 	old, _ := os.ReadFile(out)
